@@ -1039,6 +1039,26 @@ func (sc *SpecCtx) call(x *SX) Val {
 			return Val{Ty: specBool, T: and(not(eq(v.T, intLit(0))), eq(app(SInt, "typetag", v.T), vc.typeTag(ty)))}
 		}
 		return Val{Ty: ty, T: app(vc.sortOf(ty), unbox, v.T)}
+	case "aminoFails":
+		// aminoFails(T, bz): amino.Unmarshal(bz, &x) with x of type T reports an error (the
+		// same uninterpreted function of the bytes the extern model uses; entry heap)
+		need(2)
+		if args[0].K != "id" && args[0].K != "sel" {
+			sc.fail(x, "type name expected")
+		}
+		tnF := args[0].Op
+		if args[0].K == "sel" {
+			tnF = args[0].Args[0].Op + "." + args[0].Op
+		}
+		tyF := sc.lookupType(tnF)
+		bzF := sc.eval(args[1])
+		heapOfF := func(comp, srt string) Term {
+			if sc.hp != nil {
+				return sc.hp.term(comp, srt)
+			}
+			return vc.heapGet(sc.old, comp, srt)
+		}
+		return Val{Ty: specBool, T: not(eq(vc.pureApp("amino.err."+mangle(typeKey(vc.resolve(tyF))), []Val{bzF}, types.Typ[types.Int], heapOfF), intLit(0)))}
 	case "aminoDecoded":
 		// aminoDecoded(T, bz): the value amino.Unmarshal(bz, &x) stores in x of type T
 		// (the same uninterpreted function the extern model of amino.Unmarshal uses)
